@@ -137,13 +137,17 @@ func (s *streamWriter) init() {
 			}
 		default:
 			slog.Debug("remote using TLS for writing")
-			rawconn, err = tls.Dial("tcp", s.writeToAddr, s.tlsConfig)
+			// tls.Dial returns a nil *tls.Conn on failure: assigning that to the
+			// net.Conn interface would make the "rawconn == nil" test below
+			// miss the failure.
+			tlsconn, err := tls.Dial("tcp", s.writeToAddr, s.tlsConfig)
 			if err != nil {
 				d := time.Duration(delay * time.Duration(i*2))
 				slog.Error("tls.Dial", "err", err, "remote", s.writeToAddr, "retry", i, "max", maxRetries, "delay", d)
 				time.Sleep(d)
 				continue
 			}
+			rawconn = tlsconn
 		}
 		break
 	}
